@@ -1,2 +1,513 @@
-// Package c07 decides C07 (see DESIGN.md section 4). Not built yet.
+// Package c07 decides C07 (arrays and structs are values; pointers, slices and
+// maps alias).
+//
+// spec/Store.tla is the reference semantics (an object-graph store with Copy
+// along array/struct constructors), spec/StoreScen.tla enumerates
+// shape x variant x context x mutated side x mutated path scenarios, executes each
+// on the abstract store and emits the predicted probe integers; TLC also checks
+// the post-condition of Copy, the no-sharing invariant after every instruction,
+// storage identity in aliasing contexts, the statement of C07 on the model and
+// that every copying context is discriminated by some scenario.  This package
+// renders the scenarios from the Go templates of contexts.go, compiles them in
+// batches with the compiler under test, runs them under Node and compares the
+// printed probes with the prediction; the reference toolchain guards the
+// specification.
 package c07
+
+import (
+	"encoding/json"
+	"fmt"
+	"os"
+	"path/filepath"
+	"sort"
+	"strconv"
+	"strings"
+	"time"
+
+	"verif/core"
+	"verif/gjs"
+	"verif/reg"
+	"verif/tlcx"
+)
+
+func init() { reg.Register("C07", "model_checking", Run) }
+
+type scen struct {
+	S       json.RawMessage `json:"s"`
+	V       string          `json:"v"`
+	C       string          `json:"c"`
+	K       string          `json:"k"`
+	Side    string          `json:"side"`
+	W       int             `json:"w"`
+	Path    json.RawMessage `json:"path"`
+	Pt      json.RawMessage `json:"pt"`
+	Pred    []int           `json:"pred"`
+	Base    []int           `json:"base"`
+	Alt     []int           `json:"alt"`
+	Nt      bool            `json:"nt"`
+	Through bool            `json:"through"`
+
+	raw   string
+	shape *Shape
+	path  []Step
+	sub   bool // the probed type is the first field/element of the shape (addr_sub)
+}
+
+func (s *scen) key() string {
+	return fmt.Sprintf("%s|%s|%s|%s|%d|%s", s.shape, s.V, s.C, s.Side, s.W, string(s.Path))
+}
+
+func (s *scen) describe() string {
+	m := "whole value"
+	if s.W == 0 {
+		m = "path " + string(s.Path)
+	}
+	return fmt.Sprintf("type %s (variant %s), context %s, %s side mutated (%s)", s.shape, s.V, s.C, s.Side, m)
+}
+
+type unit struct {
+	shape   *Shape
+	variant string
+	scens   []*scen
+}
+
+type program struct {
+	units []*unit // slices of units (a large unit may be split over programs)
+	n     int
+}
+
+const header = "package main\n\nfunc rec(id int32) {\nif r := recover(); r != nil {\nprintln(id, -1)\n}\n}\n\n"
+
+// renderScen returns the body of the scenario function.
+func renderScen(e *typeEnv, sc *scen, id int) (string, error) {
+	tpl, ok := templates[sc.C]
+	if !ok {
+		return "", fmt.Errorf("no Go template for context %q", sc.C)
+	}
+	top := e.top
+	pt := top
+	if sc.sub {
+		pt = top.A
+	}
+	n := top.nLeaves()
+	mk := func(base int) string { return fmt.Sprintf("mk%s(%d)", e.helperName(top), base) }
+	srcRd, dstRd := tpl.SrcRd, tpl.DstRd
+	if srcRd == "" {
+		srcRd = tpl.SrcLv
+	}
+	if dstRd == "" {
+		dstRd = tpl.DstLv
+	}
+	lv := tpl.SrcLv
+	if sc.Side == "dst" {
+		lv = tpl.DstLv
+	}
+	if lv == "" {
+		return "", fmt.Errorf("context %q: side %s is not assignable", sc.C, sc.Side)
+	}
+	var mut, out, leaf string
+	if sc.C == "addr_leaf" {
+		leaf = e.sel("x", top, sc.path)
+		if sc.Side == "src" {
+			mut = leaf + " = 99"
+		} else {
+			mut = "*p = 99"
+		}
+		out = fmt.Sprintf("pr%s(%d, x)\nprintln(int32(%d), int32(*p))", e.helperName(top), id, id)
+	} else {
+		if sc.W == 1 {
+			mut = fmt.Sprintf("%s = mk%s(70)", lv, e.helperName(pt))
+		} else {
+			mut = e.sel(lv, pt, sc.path) + " = 99"
+		}
+		if tpl.Wrap && sc.Side == "dst" {
+			mut = "func() {\n" + mut + "\n}()"
+		}
+		out = fmt.Sprintf("pr%s(%d, %s)\npr%s(%d, %s)", e.helperName(pt), id, srcRd, e.helperName(pt), id, dstRd)
+	}
+	body := strings.NewReplacer("$MUT", mut, "$OUT", out).Replace(tpl.Body)
+	first := []Step{{"f", 1}}
+	if top.K == "arr" {
+		first = []Step{{"e", 1}}
+	}
+	r := strings.NewReplacer(
+		"$LEAF", leaf,
+		"$MKB1", mk(40+n), "$MKB", mk(40), "$MKC", mk(50),
+		"$MK0", mk(10), "$MK1", mk(10+n), "$MK2", mk(10+2*n),
+		"$WI", e.WI(), "$W", e.W(), "$T", e.T(), "$L", e.leaf, "$G", e.G(), "$I", e.I(),
+		"$N", strconv.Itoa(e.n), "$K1", e.sel("", top, first),
+	)
+	return r.Replace(body), nil
+}
+
+func renderProgram(p *program) (gjs.Prog, error) {
+	var b strings.Builder
+	b.WriteString(header)
+	var calls strings.Builder
+	id := 0
+	for ui, u := range p.units {
+		e := newTypeEnv(ui, u.shape, u.variant)
+		b.WriteString(e.decls())
+		b.WriteString("\n")
+		for _, sc := range u.scens {
+			body, err := renderScen(e, sc, id)
+			if err != nil {
+				return gjs.Prog{}, err
+			}
+			fmt.Fprintf(&b, "// %s\nfunc s%d() {\ndefer rec(%d)\n%s\n}\n\n", sc.describe(), id, id, body)
+			fmt.Fprintf(&calls, "s%d()\n", id)
+			id++
+		}
+	}
+	b.WriteString("func main() {\n" + calls.String() + "}\n")
+	return gjs.Prog{Files: map[string]string{"main.go": b.String()}}, nil
+}
+
+// parseOut groups the printed integers by scenario id.
+func parseOut(lines []string, n int) ([][]int, error) {
+	out := make([][]int, n)
+	for _, l := range lines {
+		f := strings.Fields(l)
+		if len(f) < 1 {
+			continue
+		}
+		id, err := strconv.Atoi(f[0])
+		if err != nil || id < 0 || id >= n {
+			return nil, fmt.Errorf("unexpected output line %q", l)
+		}
+		for _, x := range f[1:] {
+			if x == "-0" {
+				x = "0" // an integer zero held as JavaScript -0: print rendering, documented exception
+			}
+			v, err := strconv.Atoi(x)
+			if err != nil {
+				return nil, fmt.Errorf("unexpected output line %q", l)
+			}
+			out[id] = append(out[id], v)
+		}
+	}
+	return out, nil
+}
+
+func eqInts(a, b []int) bool {
+	if len(a) != len(b) {
+		return false
+	}
+	for i := range a {
+		if a[i] != b[i] {
+			return false
+		}
+	}
+	return true
+}
+
+type failure struct {
+	sc   *scen
+	unit *unit
+	got  []int
+	keys []string
+}
+
+// Run is the C07 check.
+func Run(c *core.Ctx, pool *gjs.Pool) {
+	if dir := os.Getenv("VERIF_REPLAY"); dir != "" {
+		replay(c, pool, dir)
+		return
+	}
+	c.Assumef("the Go template of a context (harness/props/c07/contexts.go) denotes the instruction sequence of the same-named context of StoreScen.tla; guarded per scenario by the reference toolchain (spec_guard_discards)")
+	c.Assumef("integer leaves are int32 or int64 (printed as int32); arrays have 2 elements, slices 2, maps 1 entry; nesting of the type under test <= 2, contexts add one more level")
+	variants := []string{"n32", "a32", "n64"}
+	num, den := 1, 16
+	if c.Thorough() {
+		num, den = 1, 1
+	}
+	params := map[string]any{"seed": c.Seed, "num": num, "den": den, "variants": variants, "out": "scen"}
+	pj, _ := json.Marshal(params)
+	cfg := "SPECIFICATION Spec\nINVARIANT CopyOK\nINVARIANT CtxOK\nINVARIANT Emit\nCHECK_DEADLOCK FALSE\n"
+	r, err := tlcx.Run(c, tlcx.Opts{Module: "StoreScen", Cfg: cfg, Workers: 8, Timeout: 25 * time.Minute, Files: map[string]string{"c07_params.json": string(pj)}, HeapMB: 6144})
+	if !tlcx.MustComplete(c, r, err, "StoreScen") {
+		return
+	}
+	c.Phase("tlc")
+	c.Set("checker_cmd", "tlc StoreScen (INVARIANTS CopyOK, CtxOK, Emit = RowOK + scenario emission)")
+	c.Set("exhaustive", num >= den)
+	c.Set("sampling", fmt.Sprintf("%d/%d of the (shape, variant, context) triples, chosen by VERIF_SEED inside TLC", num, den))
+
+	files, _ := filepath.Glob(filepath.Join(r.Dir, "scen.*.ndjson"))
+	sort.Strings(files)
+	units := map[string]*unit{}
+	var order []string
+	total := 0
+	ctxSeen := map[string]int{}
+	for _, f := range files {
+		err := tlcx.ReadNDJSON(f, func(raw json.RawMessage) error {
+			var inner string
+			if err := json.Unmarshal(raw, &inner); err != nil {
+				return err
+			}
+			sc := &scen{raw: inner}
+			if err := json.Unmarshal([]byte(inner), sc); err != nil {
+				return err
+			}
+			uk := string(sc.S) + "|" + sc.V
+			u := units[uk]
+			if u == nil {
+				sh, err := decodeShape(sc.S)
+				if err != nil {
+					return err
+				}
+				u = &unit{shape: sh, variant: sc.V}
+				units[uk] = u
+				order = append(order, uk)
+			}
+			sc.shape = u.shape
+			var err error
+			if sc.path, err = decodePath(sc.Path); err != nil {
+				return err
+			}
+			sc.sub = string(sc.Pt) != string(sc.S)
+			u.scens = append(u.scens, sc)
+			ctxSeen[sc.C]++
+			total++
+			return nil
+		})
+		if err != nil {
+			c.Infra(fmt.Errorf("decode %s: %v", f, err))
+			return
+		}
+	}
+	if total == 0 {
+		c.Infra(fmt.Errorf("StoreScen emitted no scenario"))
+		return
+	}
+	sort.Strings(order)
+	for _, uk := range order {
+		u := units[uk]
+		sort.SliceStable(u.scens, func(i, j int) bool { return u.scens[i].key() < u.scens[j].key() })
+	}
+	c.Set("units", len(units))
+	c.Set("contexts", len(ctxSeen))
+	c.Set("rule", "TLC enumerates (type shape, rendering variant, context, mutated side, mutated leaf path or whole value) rows of StoreScen.tla and executes each on the abstract store of Store.tla; a case is one rendered scenario function with its predicted probe integers; distinct = distinct rows; non-trivial = rows whose prediction changes when the context's copy is skipped (copying contexts) or whose mutation is observed through the alias (aliasing contexts)")
+
+	// programs of bounded size
+	const maxPerProg = 300
+	var progs []*program
+	cur := &program{}
+	for _, uk := range order {
+		u := units[uk]
+		rest := u.scens
+		for len(rest) > 0 {
+			room := maxPerProg - cur.n
+			if room <= 0 || (cur.n > 0 && len(rest) > room && len(rest) <= maxPerProg) {
+				progs = append(progs, cur)
+				cur = &program{}
+				room = maxPerProg
+			}
+			k := len(rest)
+			if k > room {
+				k = room
+			}
+			cur.units = append(cur.units, &unit{shape: u.shape, variant: u.variant, scens: rest[:k]})
+			cur.n += k
+			rest = rest[k:]
+		}
+	}
+	if cur.n > 0 {
+		progs = append(progs, cur)
+	}
+	c.Set("programs", len(progs))
+
+	c.Phase("decode")
+	fails := make([][]failure, len(progs))
+	discards := make([]int, len(progs))
+	evals := make([]int, len(progs))
+	discardNote := make([]string, len(progs))
+	c.ParMap(len(progs), func(i int) {
+		p := progs[i]
+		prog, err := renderProgram(p)
+		if err != nil {
+			c.Infra(err)
+			return
+		}
+		b := pool.RunBoth(c.Scratch, prog, gjs.Opts{}, 5*time.Minute, true, false)
+		if b.BuildErr != nil {
+			if be, ok := b.BuildErr.(*gjs.BuildError); ok && be.Panic {
+				c.Report(core.Case{Keys: []string{"compiler_panic"}, Summary: "compiler internal error on a scenario program: " + be.Error(), Files: prog.ReplayFiles("prog")})
+			} else {
+				c.Infra(fmt.Errorf("gopherjs build of a scenario program failed: %v", b.BuildErr))
+			}
+			return
+		}
+		if b.NativeErr != "" {
+			c.Infra(fmt.Errorf("reference toolchain rejected a generated program: %s", tlcx.Tail(b.NativeErr, 15)))
+			return
+		}
+		if b.Native.End != "exit" {
+			c.Infra(fmt.Errorf("native run of a scenario program ended with %s %s", b.Native.End, b.Native.Msg))
+			return
+		}
+		nat, err := parseOut(b.Native.Lines, p.n)
+		if err != nil {
+			c.Infra(fmt.Errorf("native output: %v", err))
+			return
+		}
+		if b.JS.End != "exit" {
+			c.Report(core.Case{Keys: []string{"program_aborted"}, Summary: fmt.Sprintf("compiled scenario program ended with %s: %s", b.JS.End, b.JS.Msg), Files: prog.ReplayFiles("prog")})
+			return
+		}
+		js, err := parseOut(b.JS.Lines, p.n)
+		if err != nil {
+			c.Report(core.Case{Keys: []string{"program_output"}, Summary: "compiled scenario program printed an unexpected line: " + err.Error(), Files: prog.ReplayFiles("prog")})
+			return
+		}
+		id := 0
+		for _, u := range p.units {
+			for _, sc := range u.scens {
+				k := id
+				id++
+				if !eqInts(nat[k], sc.Pred) {
+					discards[i]++
+					if discardNote[i] == "" {
+						discardNote[i] = fmt.Sprintf("%s: spec %v, reference toolchain %v", sc.describe(), sc.Pred, nat[k])
+					}
+					continue
+				}
+				evals[i]++
+				if eqInts(js[k], sc.Pred) {
+					continue
+				}
+				var keys []string
+				if fk := findingKey[sc.C]; fk != "" && eqInts(js[k], sc.Alt) {
+					keys = []string{fk}
+				}
+				fails[i] = append(fails[i], failure{sc: sc, unit: u, got: js[k], keys: keys})
+			}
+		}
+	})
+	c.Phase("run")
+	nd, ne := 0, 0
+	for i := range progs {
+		nd += discards[i]
+		ne += evals[i]
+		if discardNote[i] != "" && nd <= 50 {
+			fmt.Printf("note: spec-guard discard: %s\n", discardNote[i])
+		}
+	}
+	c.Set("evaluations", ne)
+	c.Set("spec_guard_discards", nd)
+	c.Set("traces_validated_against_impl", ne)
+	nt, copyN, aliasN := 0, 0, 0
+	for _, uk := range order {
+		for _, sc := range units[uk].scens {
+			if sc.Nt {
+				c.Distinct(sc.key())
+				nt++
+			}
+			if sc.K == "copy" {
+				copyN++
+			} else {
+				aliasN++
+			}
+		}
+	}
+	c.Set("scenarios", total)
+	c.Set("scenarios_copy_contexts", copyN)
+	c.Set("scenarios_alias_contexts", aliasN)
+
+	// one report per (context, classifier) group
+	type group struct {
+		first failure
+		count int
+	}
+	groups := map[string]*group{}
+	var gorder []string
+	for _, fl := range fails {
+		for _, f := range fl {
+			gk := f.sc.C + "|" + strings.Join(f.keys, ",")
+			g := groups[gk]
+			if g == nil {
+				g = &group{first: f}
+				groups[gk] = g
+				gorder = append(gorder, gk)
+			}
+			g.count++
+		}
+	}
+	sort.Strings(gorder)
+	for _, gk := range gorder {
+		g := groups[gk]
+		f := g.first
+		mini := &program{units: []*unit{{shape: f.unit.shape, variant: f.unit.variant, scens: []*scen{f.sc}}}, n: 1}
+		prog, err := renderProgram(mini)
+		if err != nil {
+			c.Infra(err)
+			return
+		}
+		files := prog.ReplayFiles("prog")
+		files["scenario.json"] = f.sc.raw + "\n"
+		files["expected.txt"] = fmt.Sprintln(f.sc.Pred)
+		files["observed.txt"] = fmt.Sprintln(f.got)
+		c.Report(core.Case{Keys: f.keys,
+			Summary: fmt.Sprintf("%s: Go/spec probes %v, compiled program printed %v (%d scenarios of context %s differ this way)", f.sc.describe(), f.sc.Pred, f.got, g.count, f.sc.C),
+			Files:   files})
+	}
+	// samples
+	step := total/4 + 1
+	i := 0
+	for _, uk := range order {
+		for _, sc := range units[uk].scens {
+			if i%step == 0 {
+				c.Sample(map[string]any{"scenario": json.RawMessage(sc.raw)})
+			}
+			i++
+		}
+	}
+}
+
+// replay re-decides one recorded scenario: the program in <dir>/prog must print
+// the probes recorded in <dir>/expected.txt.
+func replay(c *core.Ctx, pool *gjs.Pool, dir string) {
+	files := map[string]string{}
+	ents, err := os.ReadDir(filepath.Join(dir, "prog"))
+	if err != nil {
+		c.Infra(err)
+		return
+	}
+	for _, e := range ents {
+		b, err := os.ReadFile(filepath.Join(dir, "prog", e.Name()))
+		if err != nil {
+			c.Infra(err)
+			return
+		}
+		files[e.Name()] = string(b)
+	}
+	exp, err := os.ReadFile(filepath.Join(dir, "expected.txt"))
+	if err != nil {
+		c.Infra(err)
+		return
+	}
+	prog := gjs.Prog{Files: files}
+	b := pool.RunBoth(c.Scratch, prog, gjs.Opts{}, time.Minute, true, false)
+	if b.BuildErr != nil || b.NativeErr != "" {
+		c.Infra(fmt.Errorf("replay build failed: %v %s", b.BuildErr, b.NativeErr))
+		return
+	}
+	js, err1 := parseOut(b.JS.Lines, 1)
+	nat, err2 := parseOut(b.Native.Lines, 1)
+	if err1 != nil || err2 != nil {
+		c.Infra(fmt.Errorf("replay output: %v %v", err1, err2))
+		return
+	}
+	want := strings.TrimSpace(string(exp))
+	c.Set("evaluations", 1)
+	if strings.TrimSpace(fmt.Sprintln(nat[0])) != want {
+		c.Set("spec_guard_discards", 1)
+		fmt.Printf("replay: the reference toolchain prints %v, recorded expectation %s: discarded\n", nat[0], want)
+		return
+	}
+	if strings.TrimSpace(fmt.Sprintln(js[0])) != want {
+		c.Report(core.Case{Summary: fmt.Sprintf("replay of %s: expected %s, compiled program printed %v", dir, want, js[0]), Files: prog.ReplayFiles("prog")})
+		return
+	}
+	fmt.Printf("replay: compiled program prints the expected probes %s\n", want)
+}
